@@ -223,10 +223,10 @@ PROPERTY = {
             strategy=strat_history,
             nontrivial=lambda L: "nontrivial" in L,
             quick=250,
-            thorough=4000,
+            thorough=16000,
             shards_quick=16,
             describe=lambda c: {"params": c["params"], "n_pairs": len(c["pairs"]), "first_pairs": c["pairs"][:8]},
         ),
-        SubCheck("bounds_distribution", check_bounds_distribution, strategy=strat_bounds, nontrivial=lambda L: "N>=4" in L, quick=320, thorough=4000, shards_quick=8),
+        SubCheck("bounds_distribution", check_bounds_distribution, strategy=strat_bounds, nontrivial=lambda L: "N>=4" in L, quick=320, thorough=16000, shards_quick=8),
     ],
 }
